@@ -134,6 +134,12 @@ CHECKS = {
         text="Trees decorated with links of every kind (relative/absolute, inside/outside/above the root, ancestors, root, '.', chains, mutual, self, to files, dangling) are searched with and without `symlinks` from four root spellings and cwds; rows are mapped to (real directory, name) identities that must be listed exactly once and cover everything reachable; each real directory may be entered once (hook).",
         note="Trusted: os.path.realpath/isdir for reachability. With a depth window only the safety clauses are judged.",
         ref="DESIGN.md section 3 / C18"),
+    "C20": dict(
+        level="exploration",
+        technique="runtime monitoring: differential oracle against the real `git check-ignore`, reference matchers for the generated hg / docker pattern subset, option/config/override matrix",
+        text="Generated repositories and ignore files (literal names, *.ext, dir/, dir/*.ext, **/name, ?, /rooted, comments, negations, hg syntax sections and regexps, nested .gitignore) are searched from six root spellings (., relative from outside and inside, absolute, sub-directory relative/absolute) with the option, the configuration default, the no... override and off; the omitted set must equal the tool's ignored set.",
+        note="Trusted: git 2.39 check-ignore; fsv/checks/c20.py reference matchers (DESIGN.md Appendix A). Known finding: libgit2 drops nested-file negations.",
+        ref="DESIGN.md section 3 / C20"),
 }
 
 NOT_APPLICABLE = {}
